@@ -70,9 +70,11 @@ def value_sums(self, dropna=True, group=True):
     if self._data is None:
         return None
 
-    value_sums = pd.Series(
-        np.diff(self._data.index.values), index=self._get_values().iloc[:-1]
-    )
+    lengths = np.diff(self._data.index.values)
+    if lengths.dtype.kind == "m":
+        # nanosecond resolution whatever the unit of the index, so that value x length is not truncated
+        lengths = lengths.astype("timedelta64[ns]")
+    value_sums = pd.Series(lengths, index=self._get_values().iloc[:-1])
     # .values used to avoid a strange numpy Future Warning
     if group:
         result = value_sums.groupby(value_sums.index.values).sum()
